@@ -1,6 +1,6 @@
 (* Proofs/Truthful.v — C03: the model of Model/Typed.v keeps every vector truthful
-   (Spec/Truthful.v), except at the five call sites where the faithful model does not
-   (the [..._refuted] witnesses; findings NEW-C03-1..5). *)
+   (Spec/Truthful.v): inference, one preservation lemma per operation, write-back, and the
+   invariant over all programs of the alphabet. *)
 From Coq Require Import List Bool Arith ZArith Lia.
 From Serif Require Import Base.PyVal Base.StErr Spec.PySlice Spec.DtypeLattice Model.Dtype Model.Index
   Model.SetItem Spec.Truthful Model.Typed Proofs.Dtype Proofs.PySlice Proofs.Index Proofs.SetItem.
@@ -134,9 +134,12 @@ Theorem infer_truthful l nm : truthful (mk_vector l None nm).
 Proof. apply mk_vector_truthful_gen. discriminate. Qed.
 
 (* the same dtype over a selection of the vector's own elements (or any elements that belong) *)
-Lemma copy_new_truthful v l nm :
-  truthful v -> (forall d, vdt v = Some d -> Forall (eb d) l) -> truthful (copy_new v l nm).
-Proof. intros _ H. apply mk_vector_truthful_gen. exact H. Qed.
+Lemma copy_new_truthful v l nm : truthful (copy_new v l nm).
+Proof.
+  unfold copy_new. apply mk_vector_truthful_gen. intros d' E.
+  destruct (vdt v) as [d|]; [|discriminate]. cbn [option_map] in E. inversion E; subst d'.
+  apply Forall_forall. intros x Hx. unfold eb. apply fold_promote_covers. unfold infos_of. apply in_map. exact Hx.
+Qed.
 
 Lemma sub_Forall d (l l' : list elt) : Forall (eb d) l -> (forall x, In x l' -> In x l) -> Forall (eb d) l'.
 Proof. rewrite !Forall_forall. auto. Qed.
@@ -270,13 +273,12 @@ Proof.
   - rewrite (Hd eq_refl). apply infer_truthful.
 Qed.
 
-(* v >> other: the columns of the resulting table (or, for ragged operands, the vector of vectors)
-   are truthful — for a Table operand only when the lengths agree (NEW-C03-3) *)
+(* v >> other: the columns of the resulting table (or, for ragged operands, the vector of vectors,
+   typed by inference) are truthful *)
 Theorem rshift_truthful v o r :
-  truthful v -> operand_truthful o -> rshift v o = Ok r ->
-  (forall cs, o = OTab cs -> same_lengths (v :: cs) = true) -> rresult_truthful r.
+  truthful v -> operand_truthful o -> rshift v o = Ok r -> rresult_truthful r.
 Proof.
-  intros Hv Ho H Hs. unfold rshift in H. destruct (vdt v) as [d|]; [|discriminate].
+  intros Hv Ho H. unfold rshift in H. destruct (vdt v) as [d|]; [|discriminate].
   destruct o as [w|cs|l|x]; cbn [operand_truthful] in Ho.
   - assert (HR : rresult_truthful (vector_of_vectors [v; w] None)).
     { apply vov_truthful; [repeat constructor; assumption|reflexivity]. }
@@ -285,7 +287,7 @@ Proof.
     destruct (negb (nullable dw) && negb (kind_eqb (dkind d) (dkind dw))); [discriminate|].
     inversion H; subst r; exact HR.
   - destruct (negb (nullable d)); [discriminate|]. inversion H; subst r.
-    apply vov_truthful; [constructor; assumption|]. intros E. rewrite (Hs cs eq_refl) in E. discriminate.
+    apply vov_truthful; [constructor; assumption|reflexivity].
   - inversion H; subst r. apply vov_truthful; [|reflexivity].
     repeat constructor; [exact Hv|apply infer_truthful].
   - discriminate.
@@ -293,51 +295,52 @@ Qed.
 
 (* ---- cast -------------------------------------------------------------------------------------- *)
 
-Lemma has_vec_elt_false v vi p : has_vec_elt v = false -> In (Some (vi, p)) (vals v) -> is_vec_class (base vi) = false.
-Proof.
-  intros H Hin. destruct (is_vec_class (base vi)) eqn:E; [|reflexivity].
-  assert (H1 : has_vec_elt v = true).
-  { unfold has_vec_elt. apply existsb_exists. exists (Some (vi, p)). split; [exact Hin|exact E]. }
-  congruence.
-Qed.
+Lemma vec_class_is_vec dt : is_vec_class (vec_class dt) = true.
+Proof. destruct dt as [[k n]|]; [destruct k|]; reflexivity. Qed.
 
 (* cast(target): the declared dtype (target, "some result is None") is honoured by the results —
-   by the interceptors for date / datetime, by `target_type(x)` otherwise; a callable target is typed
-   by inference.  Holds whenever no ELEMENT is itself a Vector (NEW-C03-5). *)
-Theorem cast_truthful t res v : has_vec_elt v = false -> truthful (cast t res v).
+   by the interceptors for date / datetime, by `target_type(x)` otherwise; a callable target, and a
+   vector some of whose elements are Vectors (cast recursively), is typed by inference *)
+Theorem cast_truthful t res v : truthful (cast t res v).
 Proof.
-  intros Hnv. unfold cast. destruct (target_kind t) as [k|] eqn:Et; [|apply truthful_some; apply infer_Forall].
+  unfold cast. destruct (target_kind t) as [k|] eqn:Et; [|apply truthful_some; apply infer_Forall].
+  destruct (existsb is_vec_elt (map (cast_elem t) (vals v))) eqn:Ev; [apply truthful_some; apply infer_Forall|].
   apply truthful_some. apply Forall_forall. intros y Hy. unfold eb.
   destruct y as [[wi q]|] eqn:Ey.
-  - apply in_map_iff in Hy. destruct Hy as [x [Hx Hin]]. destruct x as [[vi p]|]; cbn [cast_elem] in Hx; [|discriminate].
+  - assert (Hnv : is_vec_class (base wi) = false).
+    { destruct (is_vec_class (base wi)) eqn:E; [|reflexivity].
+      assert (existsb is_vec_elt (map (cast_elem t) (vals v)) = true)
+        by (apply existsb_exists; exists (Some (wi, q)); split; [exact Hy|exact E]). congruence. }
+    apply in_map_iff in Hy. destruct Hy as [x [Hx Hin]]. destruct x as [[vi p]|]; cbn [cast_elem] in Hx; [|discriminate].
     inversion Hx; subst wi q. cbn [el_info option_map fst belongs dkind].
-    unfold cast_class. rewrite (has_vec_elt_false v vi p Hnv Hin).
-    destruct t; cbn [target_kind] in Et; inversion Et; subst k.
-    + destruct (kind_eqb (base vi) KDateTime); [reflexivity|].
-      destruct (kind_eqb (base vi) KDate) eqn:E2; [apply kind_eqb_eq in E2; rewrite E2; reflexivity|reflexivity].
-    + destruct (kind_eqb (base vi) KDateTime) eqn:E2; [apply kind_eqb_eq in E2; rewrite E2; reflexivity|reflexivity].
-    + apply kind_belongs_refl.
+    unfold cast_class in *. destruct (is_vec_class (base vi)) eqn:Ei.
+    + cbn [base] in Hnv. rewrite vec_class_is_vec in Hnv. discriminate.
+    + destruct t; cbn [target_kind] in Et; inversion Et; subst k.
+      * destruct (kind_eqb (base vi) KDateTime); [reflexivity|].
+        destruct (kind_eqb (base vi) KDate) eqn:E2; [apply kind_eqb_eq in E2; rewrite E2; reflexivity|reflexivity].
+      * destruct (kind_eqb (base vi) KDateTime) eqn:E2; [apply kind_eqb_eq in E2; rewrite E2; reflexivity|reflexivity].
+      * apply kind_belongs_refl.
   - cbn [el_info option_map belongs nullable]. apply existsb_exists. exists None. split; [exact Hy|reflexivity].
 Qed.
 
 (* ---- to_object, new ---------------------------------------------------------------------------- *)
 
-Theorem to_object_truthful v : existsb el_none (vals v) = false -> truthful (to_object v).
+Theorem to_object_truthful v : truthful (to_object v).
 Proof.
-  intros H. apply truthful_some. apply Forall_forall. intros x Hx. unfold eb.
+  apply truthful_some. apply Forall_forall. intros x Hx. unfold eb.
   destruct x as [[vi p]|]; [reflexivity|].
-  assert (existsb el_none (vals v) = true) by (apply existsb_exists; exists None; auto). congruence.
+  cbn [el_info option_map belongs nullable]. apply existsb_exists. exists None. auto.
 Qed.
 
-Theorem new_truthful x n ts r : ts && el_none x = false -> vector_new x n ts = Ok r -> truthful r.
+Theorem new_truthful x n ts r : vector_new x n ts = Ok r -> truthful r.
 Proof.
-  intros Hs. unfold vector_new. destruct n as [|n].
+  unfold vector_new. destruct n as [|n].
   - destruct ts; [discriminate|]. intros H; inversion H; subst r. apply truthful_some. constructor.
   - intros H; inversion H; subst r. clear H. apply truthful_some. apply Forall_forall. intros y Hy.
     apply (repeat_spec (S n)) in Hy. subst y. unfold eb.
-    destruct x as [[vi p]|]; cbn [el_info option_map fst].
+    destruct x as [[vi p]|]; cbn [el_info option_map fst el_none negb andb].
     + destruct ts; cbn; apply kind_belongs_refl.
-    + destruct ts; [discriminate|reflexivity].
+    + rewrite andb_false_r. reflexivity.
 Qed.
 
 (* ---- row views, table construction, transposition ----------------------------------------------- *)
@@ -697,17 +700,16 @@ Qed.
 
 (* one operation of the alphabet, applied to a heap of truthful vectors, leaves a heap of truthful
    vectors (results are appended, __setitem__ / _promote mutate in place) *)
-Theorem step_truthful h o : Forall truthful h -> safe_op h o = true -> Forall truthful (fst (step conv h o)).
+Theorem step_truthful h o : Forall truthful h -> Forall truthful (fst (step conv h o)).
 Proof.
-  intros Hh Hsafe.
+  intros Hh.
   destruct o; cbn [step]; unfold with1;
     try (destruct (nth_error h i) as [v|] eqn:Ei; [|exact Hh];
          pose proof (Forall_nth_error _ _ _ _ Hh Ei) as Hv).
   - apply push_ok; [exact Hh|apply infer_truthful].
   - apply push_ok; [exact Hh|apply mk_inferred_truthful].
   - apply push_ok; [exact Hh|apply fallback_truthful].
-  - apply push_res_ok; [exact Hh|]. intros v Hv. eapply new_truthful; [|exact Hv].
-    cbn [safe_op] in Hsafe. apply negb_true_iff in Hsafe. exact Hsafe.
+  - apply push_res_ok; [exact Hh|]. intros v Hv. eapply new_truthful; exact Hv.
   - apply push_ok; [exact Hh|apply unary_truthful; exact Hv].
   - apply push_ok; [exact Hh|apply invert_truthful; exact Hv].
   - destruct (t_setitem conv k x v) as [v' r] eqn:E. cbn [fst].
@@ -718,31 +720,19 @@ Proof.
     intros r Hr. eapply lshift_truthful; eauto.
   - destruct (resolve h o) as [w|] eqn:Er; [|exact Hh].
     assert (Hw : operand_truthful w) by (eapply resolve_truthful; eauto).
-    assert (Hlen : forall cs', w = OTab cs' -> same_lengths (v :: cs') = true).
-    { intros cs' ->. destruct o as [j|js|l|x].
-      - cbn [resolve] in Er. destruct (nth_error h j); discriminate.
-      - cbn [safe_op] in Hsafe. rewrite Ei, Er in Hsafe. exact Hsafe.
-      - discriminate.
-      - discriminate. }
     destruct (rshift v w) as [[cs|r]|e] eqn:E; [| |exact Hh].
     + apply pushes_ok; [exact Hh|]. change (rresult_truthful (RTable cs)). eapply rshift_truthful; eauto.
     + apply push_ok; [exact Hh|]. change (rresult_truthful (RVec r)). eapply rshift_truthful; eauto.
-  - apply push_ok; [exact Hh|]. cbn [safe_op] in Hsafe. rewrite Ei in Hsafe.
-    destruct (target_kind t) as [k|] eqn:Et.
-    + apply cast_truthful. apply negb_true_iff in Hsafe. exact Hsafe.
-    + unfold cast. rewrite Et. apply truthful_some. apply infer_Forall.
+  - apply push_ok; [exact Hh|]. apply cast_truthful.
   - apply push_res_ok; [exact Hh|]. intros r Hr. eapply fillna_truthful; eauto.
   - apply push_ok; [exact Hh|apply dropna_truthful; exact Hv].
   - apply push_ok; [exact Hh|apply isna_truthful].
   - apply push_ok; [exact Hh|apply bools_truthful].
   - destruct (getitem v k) as [[x|r]|e] eqn:E; try exact Hh.
-    apply push_ok; [exact Hh|eapply getitem_truthful; eauto].
+    apply push_ok; [exact Hh|apply copy_new_truthful].
   - apply push_res_ok; [exact Hh|]. intros r Hr. eapply take_truthful; eauto.
-  - apply push_ok; [exact Hh|]. destruct new as [l|]; [|apply copy_truthful; exact Hv].
-    apply copy_new_truthful; [exact Hv|]. intros d Ed. cbn [safe_op] in Hsafe. rewrite Ei, Ed in Hsafe.
-    rewrite forallb_forall in Hsafe. apply Forall_forall. exact Hsafe.
-  - apply push_ok; [exact Hh|]. apply to_object_truthful. cbn [safe_op] in Hsafe. rewrite Ei in Hsafe.
-    apply negb_true_iff in Hsafe. exact Hsafe.
+  - apply push_ok; [exact Hh|]. destruct new as [l|]; [apply copy_new_truthful|apply copy_truthful; exact Hv].
+  - apply push_ok; [exact Hh|]. apply to_object_truthful.
   - apply push_ok; [exact Hh|apply copy_truthful; exact Hv].
   - destruct (get_all h js) as [cs|] eqn:Eg; [|exact Hh].
     destruct (table_of cs) as [r|e] eqn:E; [|exact Hh].
@@ -757,87 +747,23 @@ Proof.
     apply pushes_ok; [exact Hh|]. eapply table_T_truthful; eauto.
 Qed.
 
-Lemma run_from_truthful ops : forall h, Forall truthful h -> safe_from conv h ops = true ->
+Lemma run_from_truthful ops : forall h, Forall truthful h ->
   Forall truthful (fold_left (fun h o => fst (step conv h o)) ops h).
 Proof.
-  induction ops as [|o t IH]; intros h Hh Hs; cbn [fold_left]; [exact Hh|].
-  cbn [safe_from] in Hs. apply andb_true_iff in Hs. destruct Hs as [H1 H2].
-  apply IH; [apply step_truthful; assumption|exact H2].
+  induction ops as [|o t IH]; intros h Hh; cbn [fold_left]; [exact Hh|].
+  apply IH. apply step_truthful. exact Hh.
 Qed.
 
-(* THE INVARIANT OVER PROGRAMS: every vector reachable by any composition of the operations of the
-   alphabet, starting from vectors built by inference, is truthful — for programs that stay clear of
-   the five defective call sites *)
-Theorem reachable_truthful_partial ops : safe_from conv [] ops = true -> Forall truthful (run conv ops).
-Proof. intros H. apply run_from_truthful; [constructor|exact H]. Qed.
+(* THE INVARIANT OVER PROGRAMS: every vector reachable by ANY composition of the operations of the
+   alphabet, starting from vectors built by inference, is truthful *)
+Theorem reachable_truthful ops : Forall truthful (run conv ops).
+Proof. apply run_from_truthful. constructor. Qed.
 
 End WithConv.
-
-(* ---- the full-strength statement, and why it is false of the faithful model --------------------- *)
-
-Definition reachable_truthful_statement : Prop :=
-  forall conv, conv_ok conv -> forall ops, Forall truthful (run conv ops).
-
-Definition conv_none : kind -> elt -> option elt := fun _ _ => None.
-Lemma conv_none_ok : conv_ok conv_none.
-Proof. intros k x y H. discriminate. Qed.
 
 Definition e_int (n : Z) : elt := Some (mkV KInt true, n).
 Definition e_str (n : Z) : elt := Some (mkV KStr true, n).
 Definition e_float (n : Z) : elt := Some (mkV KFloat true, n).
-
-Lemma not_truthful_from_b h : forallb truthfulb h = false -> ~ Forall truthful h.
-Proof.
-  intros Hb HF. assert (forallb truthfulb h = true); [|congruence].
-  apply forallb_forall. intros v Hv. apply truthfulb_spec. rewrite Forall_forall in HF. apply HF. exact Hv.
-Qed.
-
-(* NEW-C03-1: Vector([1, None]).to_object() reports <object> (not nullable) and holds None *)
-Theorem to_object_refuted : exists v, truthful v /\ ~ truthful (to_object v).
-Proof.
-  exists (mk_vector [e_int 1; None] None None). split; [apply infer_truthful|].
-  intros H. apply truthfulb_spec in H. vm_compute in H. discriminate.
-Qed.
-
-(* NEW-C03-2: Vector.new(None, 2, typesafe=True) reports <object> (not nullable) and holds None *)
-Theorem new_refuted : exists x n ts r, vector_new x n ts = Ok r /\ ~ truthful r.
-Proof.
-  exists None, 2, true. eexists. split; [reflexivity|].
-  intros H. apply truthfulb_spec in H. vm_compute in H. discriminate.
-Qed.
-
-(* NEW-C03-3: Vector([1, None]) >> Table(<one column of 1 row>) : ragged, so no table is built, and the
-   vector of vector OBJECTS is labelled with the left operand's dtype <int?> *)
-Theorem rshift_table_refuted : exists v cs r,
-  truthful v /\ Forall truthful cs /\ rshift v (OTab cs) = Ok (RVec r) /\ ~ truthful r.
-Proof.
-  exists (mk_vector [e_int 1; None] None None), [mk_vector [e_int 5] None None]. eexists.
-  split; [apply infer_truthful|]. split; [repeat constructor; apply infer_truthful|].
-  split; [vm_compute; reflexivity|].
-  intros H. apply truthfulb_spec in H. vm_compute in H. discriminate.
-Qed.
-
-(* NEW-C03-4: Vector([1, 2]).copy(['a']) keeps <int> over a str *)
-Theorem copy_new_refuted : exists v l nm, truthful v /\ ~ truthful (copy_new v l nm).
-Proof.
-  exists (mk_vector [e_int 1; e_int 2] None None), [e_str 7], None. split; [apply infer_truthful|].
-  intros H. apply truthfulb_spec in H. vm_compute in H. discriminate.
-Qed.
-
-(* NEW-C03-5: cast(int) on a (ragged) vector of vectors casts the inner vectors and labels the outer
-   one <int> *)
-Theorem cast_nested_refuted : exists v t res, truthful v /\ ~ truthful (cast t res v).
-Proof.
-  exists (mk_vector [vec_obj (mk_vector [e_int 1] None None); vec_obj (mk_vector [e_int 1; e_int 2] None None)] None None),
-         (TType KInt), []. split; [apply infer_truthful|].
-  intros H. apply truthfulb_spec in H. vm_compute in H. discriminate.
-Qed.
-
-Theorem reachable_truthful_refuted : ~ reachable_truthful_statement.
-Proof.
-  intros H. specialize (H conv_none conv_none_ok [OpVector [e_int 1; None] None; OpToObject 0]).
-  revert H. apply not_truthful_from_b. vm_compute. reflexivity.
-Qed.
 
 (* validate_scalar is STRICTER than belongs: it refuses instances of subclasses (class F(float)) *)
 Theorem validate_stricter : exists x d, belongs x d = true /\ validate_scalar x d = false.
